@@ -50,7 +50,7 @@ Clause(r) ==
        ELSE IF ~r.canon_ok \/ (e = "accept" /\ r.canon # CanonListAnswers(r.cls, r.la)) THEN "canonical"
        ELSE IF ~r.idempotent THEN "idempotent" ELSE "ok"
   ELSE LET e == IF r.ev = "lgroup" THEN LGExpect(r) ELSE IF r.ev = "lnest" THEN LNestExpect(r)
-                 ELSE IF r.ev = "nested" THEN NestedExpect(r.chain)
+                 ELSE IF r.ev = "nested" THEN NestedExpect(NestedFull(r.chain, r.tail))
                  ELSE IF r.ev = "interval" THEN (IF r.sub = "none" /\ IntervalExpect(r) = "accept" THEN "marker" ELSE IntervalExpect(r))
                  ELSE SquareExpect(r)
            c == Common(r, e) IN
